@@ -209,6 +209,17 @@ def _near_edge(p):
     return r <= 2 or r >= (1 << 17) - 2
 
 
+def _debug_listing():
+    """The module's debugging aid (prints the table of bin sizes); using it must not change what bins() returns."""
+    import contextlib
+    import io
+
+    from gffutils import bins as _b
+
+    with contextlib.redirect_stdout(io.StringIO()):
+        _b.print_bin_sizes()
+
+
 class RandomLeg(object):
     """Random coordinates; the overlap corollary; Feature.bin."""
 
@@ -244,6 +255,7 @@ class RandomLeg(object):
                 "nest": st.booleans(),
                 "fmt": st.sampled_from(["gff", "bed"]),
                 "dot": st.sampled_from(["none", "none", "none", "start", "end", "both"]),
+                "listing_before": st.integers(0, 49).map(lambda v: v == 0),
             }
         )
 
@@ -265,6 +277,8 @@ class RandomLeg(object):
 
         s, e = case["a"]
         fmt = case["fmt"]
+        if case.get("listing_before"):
+            _debug_listing()
         for one in (True, False):
             r = check_pair(bins, s, e, fmt, one)
             if r is not None:
@@ -341,12 +355,45 @@ class StoredBinLeg(object):
                                       "dstart": shift, "dend": shift})
         return st.fixed_dictionaries({
             "features": st.lists(feat, min_size=1, max_size=6),
-            "route": st.sampled_from(["transform", "edit-then-create", "edit-then-update-replace", "plain", "add_relation-func"]),
+            "route": st.sampled_from(["transform", "edit-then-create", "edit-then-update-replace", "plain", "add_relation-func", "gtf-inferred"]),
+            "listing_before": st.integers(0, 9).map(lambda v: v == 0),
         })
+
+    def _gtf_inferred(self, case, ctx):
+        """Exons of one transcript per generated feature, imported through the GTF importer with a transform that widens
+        whatever genes / transcripts it is shown: every stored row, inferred ones included, carries the bin of its coordinates."""
+        import gffutils
+        from gffutils.bins import bins
+
+        lines = []
+        for i, f in enumerate(case["features"]):
+            s_, e_ = f["start"], f["start"] + f["len"]
+            lines.append('chr1\ts\texon\t%d\t%d\t.\t+\t.\tgene_id "g%d"; transcript_id "t%d";' % (s_, e_, i // 2, i))
+            s2 = max(1, s_ + f["dstart"])
+            lines.append('chr1\ts\texon\t%d\t%d\t.\t+\t.\tgene_id "g%d"; transcript_id "t%d";' % (s2, s2 + 10, i // 2, i))
+
+        def widen(x):
+            if x.featuretype in ("gene", "transcript"):
+                x.start = max(1, x.start - 2000)
+                x.end = x.end + 2000
+            return x
+
+        db = gffutils.create_db("\n".join(lines) + "\n", ":memory:", from_string=True, transform=widen)
+        rows = list(db.execute("SELECT id, start, end, bin, featuretype FROM features"))
+        if not any(r[4] == "gene" for r in rows):
+            return Failure("no gene was inferred from %d exon lines" % len(lines), sig={"kind": "stored-coords"})
+        for fid, s_, e_, b, ft in rows:
+            if in_range(s_, e_, "gff") and (b != bins(s_, e_) or b not in expect_one(s_, e_)):
+                return Failure("%s %s is stored with coordinates %d..%d and bin %r; bins() gives %r (GTF import with a transform)"
+                               % (ft, fid, s_, e_, b, bins(s_, e_)), sig={"kind": "stored-bin", "route": "gtf-inferred"})
+            if in_range(s_, e_, "gff") and fid not in [x.id for x in db.all_features(limit=("chr1", s_, e_), completely_within=True)]:
+                return Failure("all_features(limit=chr1:%d-%d, completely_within=True) does not return %s %s stored exactly there"
+                               % (s_, e_, ft, fid), sig={"kind": "stored-bin-query"})
+        return None
 
     def _final(self, f, route):
         s, e = f["start"], f["start"] + f["len"]
-        if route == "plain":
+        if route in ("plain", "gtf-inferred"):
             return s, e
         ns = max(1, s + f["dstart"])
         ne = max(ns, e + f["dend"])
@@ -363,6 +410,10 @@ class StoredBinLeg(object):
         from gffutils.feature import Feature
 
         route = case["route"]
+        if case.get("listing_before"):
+            _debug_listing()
+        if route == "gtf-inferred":
+            return self._gtf_inferred(case, ctx)
         feats = []
         for i, f in enumerate(case["features"]):
             feats.append(Feature(seqid="chr1", source="s", featuretype="gene", start=f["start"], end=f["start"] + f["len"],
@@ -421,6 +472,11 @@ class StoredBinLeg(object):
             if fid not in hit:
                 return Failure("region(chr1:%d-%d, completely_within=True) does not return %s stored exactly there" % (s_, e_, fid),
                                sig={"kind": "stored-bin-query"})
+            if in_range(s_, e_, "gff"):
+                hit = [x.id for x in db.all_features(limit=("chr1", s_, e_), completely_within=True)]
+                if fid not in hit:
+                    return Failure("all_features(limit=chr1:%d-%d, completely_within=True) does not return %s stored exactly there (bin %r)"
+                                   % (s_, e_, fid, b), sig={"kind": "stored-bin-query"})
         # a Feature used as the query region after it was widened in place
         lo = min(s_ for s_, e_ in finals)
         hi = max(e_ for s_, e_ in finals)
